@@ -38,6 +38,11 @@ NEEDED = {
     "S-C16-4": "C16 level 'high' (handler run through servers.misc.build_lowlevel_datagram_server_handler) with handlers that let their TimeoutError escape",
     "S-C19-4": "C19 client level now goes through the real AsyncIOBackend.create_tcp_connection() (only name resolution is scripted); before, the harness back-end called the race itself and skipped the code between the race and wrap_stream_socket()",
     "S-C20-4": "C20 api 'tls.send_all' (AsyncTLSStreamTransport over the asyncio adapter, 1-5 concurrent senders); C08 and C12 caught it before. The new scenario also found a genuine defect (known finding tls-queued-sender-success-after-failed-flush)",
+    "S-C01-5": "none: third occurrence of the cancellable yield in the server request receiver (S-C10-1, S-C02-4); a delivery defect of the server (C15, C10 catch it), C01 drives producers and consumers",
+    "S-C04-5": "C04 occasional chunks of 300-700 kB in the asyncio-adapter / TLS variants (C08 and C20 caught it before)",
+    "S-C05-5": "new harness configuration 'incronly-text': an incremental serializer that implements only the incremental interface, so that its inherited one-shot deserialize() raises IncrementalDeserializeError on malformed datagrams (used by C01, C05, C06)",
+    "S-C06-5": "none: wrong remainder of a limit error for separators of 3+ bytes; a mis-framing defect (C02 catches it), no foreign exception and progress is kept",
+    "S-C07-5": "C07 server request receiver scenario: handler waiting with a timeout and continuing after TimeoutError, endless unterminated line dripped with pauses shorter and longer than the timeout (C15 caught it before)",
     "S-C16-2": "C16 datagrams arriving before serve() and a stop + restart of serve() on the same listener",
     "S-C19-2": "C19 client level: AsyncTCPNetworkClient closed / its waiter cancelled at every step of the race",
     "S-C04-2": "C04 interrupted send then resume (C20 caught it before)",
